@@ -268,7 +268,20 @@ impl World {
                 }
                 Ok(Node::Group(Box::new(Cont::build(*cont, ms))))
             }
-            TSpec::OnData { data, kind, from, poison } => {
+            TSpec::OnData { data, kind, poison, unchecked: true, .. } => {
+                // the public unsafe constructors; their contract (no lock listed twice) holds for owned data
+                let d: &'static CML = unsafe { &*self.datas[*data] };
+                Ok(unsafe {
+                    match (kind, poison) {
+                        (CollKind::Ref, _) => Node::DRef(RefLockCollection::new_unchecked(d)),
+                        (CollKind::Boxed, false) => Node::DBoxed(BoxedLockCollection::new_unchecked(d)),
+                        (CollKind::Boxed, true) => Node::PDBoxed(Box::new(Poisonable::new(BoxedLockCollection::new_unchecked(d)))),
+                        (CollKind::Retry, false) => Node::DRetry(Box::new(RetryingLockCollection::new_unchecked(d))),
+                        (CollKind::Retry, true) => Node::PDRetry(Box::new(Poisonable::new(RetryingLockCollection::new_unchecked(d)))),
+                    }
+                })
+            }
+            TSpec::OnData { data, kind, from, poison, .. } => {
                 let d: &'static CML = unsafe { &*self.datas[*data] };
                 Ok(match (kind, poison) {
                     (CollKind::Ref, _) => Node::DRef(if *from { RefLockCollection::from(d) } else { RefLockCollection::new(d) }),
